@@ -34,7 +34,7 @@ func VerifOpenStorage(stor storage.Storage) (*leveldb.DB, error) {
 }
 
 // VerifNewDBWithStorage is NewDB over a caller-provided goleveldb storage (verification harness only)
-func VerifNewDBWithStorage(stor storage.Storage, batchDelaySeconds int, maxBatchSize int) (*DB, error) {
+func VerifNewDBWithStorage(stor storage.Storage, name string, batchDelaySeconds int, maxBatchSize int) (*DB, error) {
 	db, err := VerifOpenStorage(stor)
 	if err != nil {
 		return nil, err
@@ -42,7 +42,7 @@ func VerifNewDBWithStorage(stor storage.Storage, batchDelaySeconds int, maxBatch
 
 	ctx, cancel := context.WithCancel(context.Background())
 	dbStore := &DB{
-		baseLevelDb:       &baseLevelDb{db: db, path: "verif"},
+		baseLevelDb:       &baseLevelDb{db: db, path: name},
 		maxBatchSize:      maxBatchSize,
 		batchDelaySeconds: batchDelaySeconds,
 		sizeBatch:         0,
@@ -55,7 +55,7 @@ func VerifNewDBWithStorage(stor storage.Storage, batchDelaySeconds int, maxBatch
 }
 
 // VerifNewSerialDBWithStorage is NewSerialDB over a caller-provided goleveldb storage (verification harness only)
-func VerifNewSerialDBWithStorage(stor storage.Storage, batchDelaySeconds int, maxBatchSize int) (*SerialDB, error) {
+func VerifNewSerialDBWithStorage(stor storage.Storage, name string, batchDelaySeconds int, maxBatchSize int) (*SerialDB, error) {
 	db, err := VerifOpenStorage(stor)
 	if err != nil {
 		return nil, err
@@ -63,7 +63,7 @@ func VerifNewSerialDBWithStorage(stor storage.Storage, batchDelaySeconds int, ma
 
 	ctx, cancel := context.WithCancel(context.Background())
 	dbStore := &SerialDB{
-		baseLevelDb:       &baseLevelDb{db: db, path: "verif"},
+		baseLevelDb:       &baseLevelDb{db: db, path: name},
 		maxBatchSize:      maxBatchSize,
 		batchDelaySeconds: batchDelaySeconds,
 		sizeBatch:         0,
